@@ -61,6 +61,19 @@ CHECKS["C12"] = ("fault_enumeration",
     "concurrently only the no-thread-blocked clause is judged",
     "DESIGN.md section 6 C12")
 
+CHECKS["C18"] = ("model_checking",
+    "TLA+ model of the client's data layer (ClientStore.tla) model-checked with TLC; its labelled state graph walked on the real "
+    "WTClient over SQLite (every (store, operation) pair, reload in every store); random implementation traces validated by "
+    "Trace_ClientStore.tla",
+    "Exhaustive within the bound in model and implementation: TLC checks MemEqDisk, ReloadFixpoint, AbandonExact, SharedBodies on "
+    "every store reachable with 2-3 towers x 2-3 locators and <= 6-8 plugin-performable operations; store_rig executes every "
+    "(store, operation) edge of that graph on a real WTClient driven to that store and compares memory, raw rows, load paths and "
+    "receipt look-ups with the specification's successor, with a reload after every prefix; longer random histories are judged "
+    "event by event by TLC.",
+    "call sequences are those main.rs / retrier.rs can perform (no duplicate inserts, no mid-flow kills: those belong to C05); "
+    "the rig mirrors the plugin's multi-call flows (pending->accepted, pending->invalid)",
+    "DESIGN.md section 6 C18")
+
 NOT_YET = {
 }
 
